@@ -100,8 +100,26 @@ class Mod:
         return None
 
 
+def _cmp_rank(e: ast.AST):
+    """Canonical operand order of ==, !=, is, is not (symmetric for the operand kinds ranked here):
+    expressions containing a call go left, then plain names/paths ordered by text, then enum-like
+    dotted constants, then literals (rank ties keep source order)."""
+    if any(isinstance(x, (ast.Call, ast.Await, ast.Yield, ast.NamedExpr)) for x in ast.walk(e)):
+        return (0, "")
+    if isinstance(e, ast.Constant) or (isinstance(e, (ast.List, ast.Tuple, ast.Set, ast.Dict)) and all(isinstance(x, (ast.Constant, ast.List, ast.Tuple, ast.Set, ast.Dict, ast.Load)) for x in ast.walk(e) if x is not e)):
+        return (3, ast.unparse(e))
+    t = ast.unparse(e)
+    last = t.rsplit(".", 1)[-1]
+    if isinstance(e, ast.Attribute) and (last.isupper() or (last[:1].isupper() and "." in t)):
+        return (2, t)
+    return (1, t)
+
+
 def _normalise(tree: ast.AST) -> None:
-    """Drop no-op statements (`pass` next to real statements) so rules see the same shape."""
+    """Canonicalise two behaviour-neutral shapes so that rules see one form:
+    `pass` next to real statements is dropped, and `tmp = <expr>; return tmp`
+    (a fresh name bound immediately before the return that uses it) is folded
+    into `return <expr>`."""
     for node in ast.walk(tree):
         for field in ("body", "orelse", "finalbody"):
             b = getattr(node, field, None)
@@ -109,6 +127,30 @@ def _normalise(tree: ast.AST) -> None:
                 kept = [x for x in b if not isinstance(x, ast.Pass)]
                 if kept and len(kept) != len(b):
                     setattr(node, field, kept)
+    if os.environ.get("VERIF_CANON_CMP", "1") == "1":
+        for node in ast.walk(tree):
+            if isinstance(node, ast.Compare) and len(node.ops) == 1 and isinstance(node.ops[0], (ast.Eq, ast.NotEq, ast.Is, ast.IsNot)):
+                l, r = node.left, node.comparators[0]
+                if _cmp_rank(l) > _cmp_rank(r):
+                    node.left, node.comparators[0] = r, l
+    for fn in [n for n in ast.walk(tree) if isinstance(n, (ast.FunctionDef, ast.AsyncFunctionDef))]:
+        # a local that is dead after the return: not global/nonlocal, not captured by a nested function
+        escaping = {nm for n in ast.walk(fn) if isinstance(n, (ast.Global, ast.Nonlocal)) for nm in n.names}
+        for inner in [n for n in ast.walk(fn) if isinstance(n, (ast.FunctionDef, ast.AsyncFunctionDef, ast.Lambda)) and n is not fn]:
+            escaping |= {n.id for n in ast.walk(inner) if isinstance(n, ast.Name)}
+        for node in ast.walk(fn):
+            for field in ("body", "orelse", "finalbody"):
+                b = getattr(node, field, None)
+                if not (isinstance(b, list) and len(b) >= 2):
+                    continue
+                a, r = b[-2], b[-1]
+                if (isinstance(a, ast.Assign) and len(a.targets) == 1 and isinstance(a.targets[0], ast.Name)
+                        and isinstance(r, ast.Return) and isinstance(r.value, ast.Name) and r.value.id == a.targets[0].id
+                        and a.targets[0].id not in escaping):
+                    folded = ast.Return(value=a.value)
+                    ast.copy_location(folded, a)
+                    folded.end_lineno = getattr(r, "end_lineno", None)
+                    b[-2:] = [folded]
 
 
 class Repo:
